@@ -25,6 +25,7 @@ def known_finding(known, prop, msg):
 def run_coll(ctx, traces, ops, profile, oracle_props=None, seed_offset=0, label=None, ops_filter=None):
     """runs `coll <traces> <ops> <profile>`; ops_filter: correspondence is judged only on these op names"""
     oracle_props = oracle_props or [ctx.prop]
+    traces = traces * ctx.scale() if traces <= 8 else min(traces * ctx.scale(), max(traces, 60000))   # change-directed deepening
     ok, log = cargo_build(ctx, ["coll"])
     if not any(o["name"] == "build:harness-coll" for o in ctx.obligations):
         ctx.add_ob("build:harness-coll", "build", ok, "" if ok else log[-3000:])
